@@ -158,7 +158,242 @@ pub fn bytecode(cx: &mut Raw) {
 pub fn run_raw_topic(topic: &str, cx: &mut Raw) -> bool {
     match topic {
         "bytecode" => bytecode(cx),
+        "parse" => parse(cx),
         _ => return false,
     }
     true
+}
+
+// ---------------------------------------------------------------------------------------------
+// C02 / C18: parsing, spans, error locations
+
+fn char_offset(text: &str, line: usize, col: usize) -> Option<usize> {
+    // index (in chars) of the character at (line, col); col counts characters
+    let mut l = 0usize;
+    let mut c = 0usize;
+    for (i, ch) in text.chars().enumerate() {
+        if l == line && c == col {
+            return Some(i);
+        }
+        if ch == '\n' {
+            l += 1;
+            c = 0;
+        } else {
+            c += 1;
+        }
+    }
+    if l == line && c == col {
+        Some(text.chars().count())
+    } else {
+        None
+    }
+}
+
+fn span_text(text: &str, sp: &J) -> Option<String> {
+    let a = sp.as_array()?;
+    let s = char_offset(text, a[0].as_u64()? as usize, a[1].as_u64()? as usize)?;
+    let e = char_offset(text, a[2].as_u64()? as usize, a[3].as_u64()? as usize)?;
+    if s > e {
+        return None;
+    }
+    Some(text.chars().skip(s).take(e - s).collect())
+}
+
+fn collect_spans(ast: &J, out: &mut Vec<J>) {
+    match ast {
+        J::Object(o) => {
+            if o.contains_key("k") && o.get("k").and_then(|k| k.as_str()) != Some("paren") {
+                if let Some(sp) = o.get("sp") {
+                    out.push(sp.clone());
+                }
+            }
+            for (k, v) in o {
+                if k != "sp" && k != "argsp" && k != "p" {
+                    collect_spans(v, out);
+                }
+            }
+        }
+        J::Array(a) => a.iter().for_each(|v| collect_spans(v, out)),
+        _ => {}
+    }
+}
+
+fn parse_record(cx: &mut Raw, src: &str, want: Option<&T>, must: Option<&str>, subs: usize) {
+    let c = compile_record(src, true, true, false);
+    let mut j = c.json;
+    if let Some(w) = want {
+        j["want"] = w.to_json();
+    }
+    if let Some(m) = must {
+        j["must"] = J::from(m);
+    }
+    // every token's spanned text, re-lexed on its own
+    if let Some(toks) = j.get("tokens").and_then(|t| t.as_array()).cloned() {
+        if toks.len() <= 60 {
+            let mut relex = Vec::new();
+            for t in toks.iter() {
+                match span_text(src, &t["sp"]) {
+                    Some(txt) => {
+                        let (ts, _) = crate::proj::tokenize(&txt);
+                        relex.push(J::Array(ts.into_iter().map(|mut x| { x.as_object_mut().unwrap().remove("sp"); x }).collect()));
+                    }
+                    None => relex.push(J::Array(vec![])),
+                }
+            }
+            j["relex"] = J::Array(relex);
+        }
+    }
+    // some sub-expressions, compiled on their own
+    if subs > 0 {
+        if let Some(ast) = j.get("ast").cloned() {
+            let mut spans = Vec::new();
+            collect_spans(&ast, &mut spans);
+            let mut chosen = Vec::new();
+            for _ in 0..subs.min(spans.len()) {
+                let sp = spans[cx.rng.below(spans.len() as u64) as usize].clone();
+                if let Some(txt) = span_text(src, &sp) {
+                    let sc = compile_record(&txt, false, true, false);
+                    let mut sj = json!({"sp": sp, "text": txt, "compile": sc.json["compile"]});
+                    if let Some(a) = sc.json.get("ast") {
+                        sj["ast"] = a.clone();
+                    }
+                    chosen.push(sj);
+                } else {
+                    chosen.push(json!({"sp": sp, "text": "", "compile": {"o":"err","c":"span"}}));
+                }
+            }
+            j["subs"] = J::Array(chosen);
+        }
+    }
+    cx.emit(j);
+}
+
+fn corrupt(src: &str, r: &mut Rng) -> String {
+    let chars: Vec<char> = src.chars().collect();
+    if chars.is_empty() {
+        return ")".to_string();
+    }
+    let mut out = chars.clone();
+    let i = r.below(chars.len() as u64) as usize;
+    match r.below(6) {
+        0 => {
+            out.remove(i);
+        }
+        1 => out.insert(i, *r.pick(&[')', '(', ']', '?', ':', '"', '\\', '\n', '@', '#', 'é', '=', '|', '&', '.', ','])),
+        2 => out[i] = *r.pick(&[')', '(', '}', '{', '\'', '$', '~', '\n', 'u', '0']),
+        3 => out.truncate(i),
+        4 => {
+            let j = r.below(chars.len() as u64) as usize;
+            out.swap(i, j);
+        }
+        _ => {
+            let seg: Vec<char> = out[i..].iter().take(3).cloned().collect();
+            for (k, c) in seg.into_iter().enumerate() {
+                out.insert(i + k, c);
+            }
+        }
+    }
+    out.into_iter().collect()
+}
+
+/// Flat operator sequences: atoms joined by binary operators / ternary tokens, with unary prefixes.
+fn flat_sequences(cx: &mut Raw, nops: usize) {
+    let bins = ["||", "&&", "<", "<=", "==", "!=", ">=", ">", "in", "+", "-", "*", "/", "%", "?", ":"];
+    let uns = ["", "!", "!!", "-", "--"];
+    let atoms = ["a", "b", "c", "d"];
+    let total = bins.len().pow(nops as u32);
+    for code in 0..total {
+        let mut ops = Vec::new();
+        let mut c0 = code;
+        for _ in 0..nops {
+            ops.push(bins[c0 % bins.len()]);
+            c0 /= bins.len();
+        }
+        // unary prefixes: all combinations for <= 1 operator, seeded choice above
+        let ucombos: Vec<Vec<&str>> = if nops <= 1 {
+            let mut v = Vec::new();
+            for u0 in uns.iter() {
+                for u1 in uns.iter() {
+                    v.push(vec![*u0, *u1]);
+                }
+            }
+            v
+        } else {
+            (0..(if cx.thorough { 6 } else { 2 })).map(|_| (0..=nops).map(|_| *cx.rng.pick(&uns)).collect()).collect()
+        };
+        for us in ucombos {
+            let mut s = String::new();
+            for i in 0..=nops {
+                if i > 0 {
+                    s.push(' ');
+                    s.push_str(ops[i - 1]);
+                    s.push(' ');
+                }
+                s.push_str(us[i.min(us.len() - 1)]);
+                s.push_str(atoms[i]);
+                if cx.rng.below(9) == 0 {
+                    s.push_str(*cx.rng.pick(&[".f", "[0]", ".g()", "(1)"]));
+                }
+            }
+            let nsub = if cx.rng.below(4) == 0 { 2 } else { 0 };
+            parse_record(cx, &s, None, None, nsub);
+        }
+    }
+}
+
+pub fn parse(cx: &mut Raw) {
+    for nops in 0..=2usize {
+        flat_sequences(cx, nops);
+    }
+    if cx.thorough {
+        flat_sequences(cx, 3);
+    } else {
+        // a seeded sample of the 3-operator sequences
+        let bins = ["||", "&&", "<", "==", "in", "+", "-", "*", "/", "%", "?", ":"];
+        for _ in 0..1500 {
+            let s = format!("a {} b {} c {} d", cx.rng.pick(&bins), cx.rng.pick(&bins), cx.rng.pick(&bins));
+            parse_record(cx, &s, None, None, 1);
+        }
+    }
+    // generated deeper trees, rendered with minimal / full / random parentheses and random whitespace
+    let g = ExprGen { vars: vec!["a".into(), "b".into(), "c".into()], progs: vec![], funcs: vec!["f1".into()], macros: true, fstrings: false, matches: true };
+    for i in 0..cx.n {
+        let t = nonneg(&g.expr(&mut cx.rng, 2 + (i % 4) as u32));
+        for (parens, ws) in [(Parens::Min, false), (Parens::Full, false), (Parens::Random, true), (Parens::Min, true)] {
+            let src = render(&t, parens, ws, &mut cx.rng);
+            parse_record(cx, &src, Some(&t), Some("ok"), 3);
+            if i % 3 == 0 && parens == Parens::Random {
+                let bad = corrupt(&src, &mut cx.rng);
+                parse_record(cx, &bad, None, None, 0);
+            }
+        }
+    }
+    // multi-byte characters and newlines inside and around tokens
+    for src in ["\"é\"+\n  'ab𝄞' ", "a\n+\n\tb", "  x  ", "[1,\n 2 ,\"𝄞𝄞\"\n]", "{\"k\":\n1}.k", "f(\n)", "a ? b\n: c", "match x { case int: 1,\n case _: 2 }", "match x {}", "'é' in ['é']", "b\"\\xff\" + b'a'", "r'a\\n'", "1.5e3 + .5", "0x1F + 7u", "a.b.c(d)[e].f", "!-a", "-!a", "- - a", "!!!a", "a ? b : c ? d : e", "a ? b ? c : d : e", "(a ? b : c) ? d : e", "a in b in c", "a < b == c", "[a,]", "{a:b,}", "f(a,)", "x.in", "x.y.match", "1 +", "", " ", ")", "a b", "a ? b", "a ? : c", "match", "match x {case}", "\"abc", "'\\q'", "0x", "1e", "1.5.2", "a..b", "a.[b]", "f(,)", "[,]", "{,}", "{a}", "{a:}", "a ?? b", "a = b", "a | b", "a & b", "a ! b", "$", "é", "a\r\nb"] {
+        parse_record(cx, src, None, None, 3);
+    }
+}
+
+/// The same tree without negative numeric literals (they render as a unary minus).
+fn nonneg(t: &T) -> T {
+    match t {
+        T::Lit(V::Int(i)) if *i < 0 => T::Lit(V::Int(i.wrapping_neg().max(0))),
+        T::Lit(V::Dbl(f)) if f.is_sign_negative() => T::Lit(V::Dbl(-*f)),
+        T::Lit(_) | T::Id(_) => t.clone(),
+        T::Un { op, n, e } => T::Un { op: *op, n: *n, e: Box::new(nonneg(e)) },
+        T::Bin { op, l, r } => T::Bin { op: op.clone(), l: Box::new(nonneg(l)), r: Box::new(nonneg(r)) },
+        T::Tern { c, a, b } => T::Tern { c: Box::new(nonneg(c)), a: Box::new(nonneg(a)), b: Box::new(nonneg(b)) },
+        T::List(es) => T::List(es.iter().map(nonneg).collect()),
+        T::Map(kv) => T::Map(kv.iter().map(|(k, v)| (nonneg(k), nonneg(v))).collect()),
+        T::Sel { e, f } => T::Sel { e: Box::new(nonneg(e)), f: f.clone() },
+        T::Idx { e, i } => T::Idx { e: Box::new(nonneg(e)), i: Box::new(nonneg(i)) },
+        T::Call { f, args } => T::Call { f: f.clone(), args: args.iter().map(nonneg).collect() },
+        T::MCall { r, f, args } => T::MCall { r: Box::new(nonneg(r)), f: f.clone(), args: args.iter().map(nonneg).collect() },
+        T::FStr(s) => T::FStr(s.clone()),
+        T::Match { e, cases } => T::Match {
+            e: Box::new(nonneg(e)),
+            cases: cases.iter().map(|(p, e)| (match p { Pat::Cmp(o, v) => Pat::Cmp(o.clone(), nonneg(v)), o => o.clone() }, nonneg(e))).collect(),
+        },
+        T::Paren(e) => T::Paren(Box::new(nonneg(e))),
+    }
 }
